@@ -178,3 +178,37 @@ def element_pointer_honoured(ptr: bool, mini: bool) -> bool:
     md["element_pointer"] = ptr
     spec = process_metadata([md])[0]
     return spec.container_type.element_type.p_depth == (1 if ptr else 0)
+
+
+def _extra_key_after(first_mt, mt, k):
+    # another backend's (valid) declaration was processed earlier in the same process: what a declaration may carry does not
+    # depend on it
+    try:
+        process_metadata([LMap(_base(first_mt) + ([("link_libraries", ["firstlib"])] if first_mt.startswith("add_atlas") else [("element_pointer", False)]))])
+    except Exception:
+        return False
+    return _extra_key(mt, k)
+
+
+def extra_key_cms_aod_after_atlas(k: str) -> bool:
+    """
+    pre: len(k) <= 20
+    post: _
+    """
+    return _extra_key_after("add_atlas_event_collection_info", "add_cms_aod_event_collection_info", k)
+
+
+def extra_key_atlas_after_cms_miniaod(k: str) -> bool:
+    """
+    pre: len(k) <= 20
+    post: _
+    """
+    return _extra_key_after("add_cms_miniaod_event_collection_info", "add_atlas_event_collection_info", k)
+
+
+def extra_key_cms_miniaod_after_atlas(k: str) -> bool:
+    """
+    pre: len(k) <= 20
+    post: _
+    """
+    return _extra_key_after("add_atlas_event_collection_info", "add_cms_miniaod_event_collection_info", k)
